@@ -137,10 +137,15 @@ package sqlite
 //@   callassert AddVoucher#1: @noentries len(ov.Entries) == 0 && u(arg2) == u(ov)
 //@   callassert remove#1: @afteradd added(ov) == True()
 
+// adding a voucher never overwrites an existing row (no upsert): a replacement that keeps
+// the GUID must fail instead of being deleted again by ReplaceVoucher's clean-up
 //@ func sqlite.DB.AddVoucher
 //@   params db ctx ov
-//@   nopaths
+//@   props C18 C03 C10(sweep)
+//@   sweep bounds,panic,make,nilmem
 //@   modifies nothing
+//@   callsites insert 1
+//@   callassert insert#1: @noupsert len(arg4) == 0 && arg2 == "vouchers"
 //@   ghostset added(ov) := True()
 
 //@ func sqlite.remove
